@@ -485,10 +485,17 @@ class Guards:
         return self.prov.operand(t.discr)
 
     def switches(self):
+        """(block, terminator, expression switched on). A comparison is reported twice, as written and with its operands swapped
+        (`a < b` and `b > a`): the two are the same predicate with the same edges, and rules that look for one orientation must
+        not care which one the source happens to use."""
         live = self.body.live_blocks()
         for b in self.body.blocks:
             if b.idx in live and not b.cleanup and b.term.k == "switch":
-                yield b.idx, b.term, self.prov.operand(b.term.discr)
+                e = self.prov.operand(b.term.discr)
+                yield b.idx, b.term, e
+                m = mirror_expr(e)
+                if m is not None:
+                    yield b.idx, b.term, m
 
     def variant_names(self, bidx):
         """for a switch on discriminant(place): value -> variant name, using downcasts found in the
@@ -918,6 +925,25 @@ def comparison(e):
     return op, a, b
 
 
+_MIRROR_OP = {"Lt": "Gt", "Le": "Ge", "Gt": "Lt", "Ge": "Le"}
+_MIRROR_CALL = {"lt": "gt", "le": "ge", "gt": "lt", "ge": "le"}
+
+
+def mirror_expr(e):
+    """the same ordering comparison with its operands swapped, as an expression (None for anything else, and for == / != whose
+    patterns are symmetric anyway)"""
+    if e[0] == "un" and e[1] == "Not":
+        m = mirror_expr(e[2])
+        return ("un", "Not", m) + tuple(e[3:]) if m is not None else None
+    if e[0] == "bin" and e[1] in _MIRROR_OP:
+        return ("bin", _MIRROR_OP[e[1]], e[3], e[2]) + tuple(e[4:])
+    if e[0] == "call" and len(e[2]) == 2:
+        m = re.search(r"::(lt|le|gt|ge)$", e[1])
+        if m and comparison(e) is not None:
+            return ("call", e[1][:m.start(1)] + _MIRROR_CALL[m.group(1)], (e[2][1], e[2][0])) + tuple(e[3:])
+    return None
+
+
 def normalised_cmp(e, atom=None):
     """comparison as  (coeffs, const, op)  meaning  Σ coeff·atom + const  op  0"""
     c = comparison(e)
@@ -1220,7 +1246,10 @@ def named_switches(body):
         op, a, c, blk = found
         if neg:
             op = {"<": ">=", "<=": ">", ">": "<=", ">=": "<", "==": "!=", "!=": "=="}[op]
-        yield b.idx, op, operand_name(body, blk, a), operand_name(body, blk, c), f, tr
+        ln, rn = operand_name(body, blk, a), operand_name(body, blk, c)
+        yield b.idx, op, ln, rn, f, tr
+        if op in ("<", "<=", ">", ">="):
+            yield b.idx, {"<": ">", "<=": ">=", ">": "<", ">=": "<="}[op], rn, ln, f, tr
 
 
 def constant_discriminant_edges(body, guards):
@@ -1334,3 +1363,28 @@ def flow_key(body, items, blk_of=lambda x: x[0]):
         line = body.blocks[b].term.line or 0
         return (n, n_loop, line)
     return key
+
+
+def membership_test(e):
+    """if e is a boolean membership test on a map / set, in any of its usual spellings - `m.contains(k)`, `m.contains_key(k)`,
+    `m.get(k).is_some()` / `.is_none()` - return (container expr, key expr, negated); else None"""
+    neg = False
+    while e[0] == "un" and e[1] == "Not":
+        e, neg = e[2], not neg
+    if e[0] != "call":
+        return None
+    n = short(e[1])
+    if re.search(r"(HashSet|BTreeSet|HashMap|BTreeMap|HashMapDelay|LruTimeCache|LinkedHashMap)(<.*>)?::(contains|contains_key)$", n) and len(e[2]) == 2:
+        return e[2][0], e[2][1], neg
+    if re.search(r"Option::is_(some|none)$", n) and e[2] and e[2][0][0] == "call" and \
+            re.search(r"(HashSet|BTreeSet|HashMap|BTreeMap|HashMapDelay|LinkedHashMap)(<.*>)?::get$", short(e[2][0][1])) and len(e[2][0][2]) == 2:
+        inner = e[2][0]
+        return inner[2][0], inner[2][1], neg != n.endswith("is_none")
+    return None
+
+
+def mirror(c):
+    """the same comparison written with its operands swapped: (op, a, b) -> (op', b, a)"""
+    if c is None:
+        return None
+    return ({"<": ">", "<=": ">=", ">": "<", ">=": "<=", "==": "==", "!=": "!="}[c[0]], c[2], c[1])
